@@ -63,10 +63,21 @@ def _cause_of_dirty(tr: dict, worlds, upto: int, tslot: int) -> str:
     e = tr["ev"][first]
     pre, post = worlds[first]
     p, q = pre["t"][tslot - 1], post["t"][tslot - 1]
+    # a clone inherits flag, result and caches: look for the cause in the original
+    src = None
+    if e["op"] == "tclone" and e["b"] == tslot:
+        src = e["a"]
+    elif e["op"] == "sclone" and tslot in post["s"][e["b"] - 1]["mem"]:
+        src = pre["s"][e["a"] - 1]["mem"][post["s"][e["b"] - 1]["mem"].index(tslot)]
+    elif e["op"] == "sxo" and not p["al"] and tslot in post["s"][e["a"] - 1]["mem"]:
+        j = post["s"][e["a"] - 1]["mem"].index(tslot)
+        keep = min(e["p"], len(pre["s"][e["a"] - 1]["mem"]))
+        src = pre["s"][e["b"] - 1]["mem"][e["q"] + j - keep]
+    if src is not None and first > 0:
+        return _cause_of_dirty(tr, worlds, first - 1, src)
     if e["op"] in ("tmut", "smut"):
         if p["al"] and p["c"] != q["c"] and not q["chg"]:
-            site = "TestCaseMutation.mutate" if e["op"] == "tmut" else "TestSuiteMutation.mutate"
-            return f"silent-edit/{site}/" + ("no-sut-call" if not p["sut"] else "with-sut-call")
+            return "silent-edit/TestCaseMutation.mutate/" + ("no-sut-call" if not p["sut"] else "with-sut-call")
     if e["op"] == "tq" and e["k"] in ("fitsum", "covmean") and p["chg"] and not q["chg"]:
         funcs = p["cf"] if e["k"] == "covmean" else p["ff"]
         if not funcs:
@@ -144,7 +155,7 @@ def run(ctx: Ctx) -> None:
                               workers=8 if q else "auto")
 
     def _sim():
-        return ctx.simulate("MC_Cache", "MC_Cache_sim.cfg", num=500 if q else 6000, depth=24 if q else 40)
+        return ctx.simulate("MC_Cache", "MC_Cache_sim.cfg", num=150 if q else 6000, depth=20 if q else 40)
 
     with ThreadPoolExecutor(max_workers=3) as ex:
         f1, f2, f3 = ex.submit(_design), ex.submit(_mc), ex.submit(_sim)
@@ -178,9 +189,34 @@ def run(ctx: Ctx) -> None:
     ctx.notes["model_states_reached_by_a_query"] = len(emitted)
     ctx.notes["distinct_call_sequences"] = len(seqs)
     ctx.notes["model_predicted_defect_sequences"] = sum(is_bad(b["pred"]) for b in seqs.values())
-    reps = 2 if q else 4
+    reps = 1 if q else 4
+    chosen = sorted(seqs)
+    if q:
+        # quick tier: every sequence on which the model predicts a defect, one sequence per shape
+        # (calls, query kinds and targets; function ids and registration ignored), then a
+        # deterministic fill-up; the thorough tier replays all of them
+        import hashlib
+
+        def h(key):
+            return hashlib.sha1(f"{ctx.seed}/{key}".encode()).hexdigest()
+
+        def shape(b):
+            return (b["ip"]["ns"], b["ip"]["sut1"],
+                    tuple((a["op"], a["k"], a["a"], a["b"]) for a in b["hist"]))
+        budget = 1800
+        pick = {k for k in chosen if is_bad(seqs[k]["pred"])}
+        by_shape: dict = {}
+        for k in sorted(chosen, key=h):
+            by_shape.setdefault(shape(seqs[k]), k)
+        pick |= set(by_shape.values())
+        for k in sorted(chosen, key=h):
+            if len(pick) >= budget:
+                break
+            pick.add(k)
+        ctx.notes["quick_tier_sample"] = f"{len(pick)} of {len(chosen)} call sequences ({len(by_shape)} shapes)"
+        chosen = sorted(pick)
     behs = []
-    for key in sorted(seqs):
+    for key in chosen:
         b = seqs[key]
         n = reps if any(a["op"] in ("tmut", "txo", "smut") for a in b["hist"]) else 1
         for r in range(n):
@@ -193,7 +229,7 @@ def run(ctx: Ctx) -> None:
         b["k"] = k
     ctx.notes["replays_from_exhaustive_extraction"] = n_exh
     ctx.notes["replays_from_simulation"] = len(behs) - n_exh
-    ctx.exhaustive = True
+    ctx.exhaustive = not q
 
     # 3. replay on the real code
     traces = parallel_map(_replay_one, [(b, ctx.seed) for b in behs], chunksize=32)
